@@ -85,8 +85,13 @@ fn zone_field(rng: &mut Rng, v: &ValueFacts, info: &mut PatInfo) -> Field {
     Field { text: run(c, w), needs_delim: matches!(w, 1 | 4 | 5), zone: true }
 }
 
-const DELIMS: [&str; 16] = [" ", "/", "-", ":", ".", ",", "T", "_", " ", "-", "é", "日", "'at'", "''", "' o''clock '", "'日付'"];
-const ZONE_SAFE_DELIMS: [&str; 9] = [" ", "/", ".", ",", "T", "_", "é", "'at'", "''"];
+const DELIMS: [&str; 28] = [
+    " ", "/", "-", ":", ".", ",", "T", "_", " ", "-", "é", "日", "'at'", "''", "' o''clock '", "'日付'",
+    // white space / line ends (also as the very last thing of a pattern), Unicode numerics that are not ASCII
+    // digits (a reader that asks char::is_numeric instead of is_ascii_digit swallows them into a number)
+    "\n", "\r\n", "\t", "\u{a0}", "½", "②", "Ⅳ", "'½'", "'\n'", " \n", "|", "'\r'",
+];
+const ZONE_SAFE_DELIMS: [&str; 14] = [" ", "/", ".", ",", "T", "_", "é", "'at'", "''", "\n", "\t", "½", "②", "|"];
 
 /// Generates one pattern for a value with the given year/offset.
 pub fn gen(rng: &mut Rng, kind: Kind, v: &ValueFacts) -> PatInfo {
